@@ -449,4 +449,511 @@ theorem lexNumber_fold (inp : List Nat) :
     intro tok n h
     exact noBreak_take_of_le hx (a2 tok n h)
 
+
+/-! ### operators -/
+
+theorem lexOp_dot (ft : List Nat) (h : ∀ x, ft ≠ 46 :: 46 :: x) : lexOp (46 :: ft) = some (.Dot, 1) := by
+  simp [lexOp, h]
+
+set_option maxHeartbeats 1000000 in
+theorem lexOp_none (a : Nat) (t : List Nat)
+    (h1 : a ≠ 61) (h2 : a ≠ 43) (h3 : a ≠ 42) (h4 : a ≠ 47) (h5 : a ≠ 37) (h6 : a ≠ 124) (h7 : a ≠ 94)
+    (h8 : a ≠ 38) (h9 : a ≠ 45) (h10 : a ≠ 64) (h11 : a ≠ 126) (h12 : a ≠ 58) (h13 : a ≠ 59) (h14 : a ≠ 60)
+    (h15 : a ≠ 62) (h16 : a ≠ 44) (h17 : a ≠ 46) (h33 : ∀ x, a :: t ≠ 33 :: 61 :: x) : lexOp (a :: t) = none := by
+  simp [lexOp, *]
+
+theorem lexOp_fold_dot (tail : List Nat) (hx : ∀ t, tail ≠ 46 :: 46 :: t) :
+    lexOp (foldEol (46 :: tail)) = lexOp (46 :: tail) := by
+  rw [foldEol_cons_ne (by decide), lexOp_dot _ hx, lexOp_dot]
+  intro x hx'
+  rw [foldEol_eq_cons (by decide) (by decide)] at hx'
+  obtain ⟨y, rfl, hy⟩ := hx'
+  have := hy.symm
+  rw [foldEol_eq_cons (by decide) (by decide)] at this
+  obtain ⟨z, rfl, _⟩ := this
+  exact hx z rfl
+
+theorem lexOp_fold_none (l : List Nat)
+    (h1 : ∀ t, l ≠ 61 :: t) (h2 : ∀ t, l ≠ 43 :: t) (h3 : ∀ t, l ≠ 42 :: t) (h4 : ∀ t, l ≠ 47 :: t)
+    (h5 : ∀ t, l ≠ 37 :: t) (h6 : ∀ t, l ≠ 124 :: t) (h7 : ∀ t, l ≠ 94 :: t) (h8 : ∀ t, l ≠ 38 :: t)
+    (h9 : ∀ t, l ≠ 45 :: t) (h10 : ∀ t, l ≠ 64 :: t) (h11 : ∀ t, l ≠ 33 :: 61 :: t) (h12 : ∀ t, l ≠ 126 :: t)
+    (h13 : ∀ t, l ≠ 58 :: t) (h14 : ∀ t, l ≠ 59 :: t) (h15 : ∀ t, l ≠ 60 :: t) (h16 : ∀ t, l ≠ 62 :: t)
+    (h17 : ∀ t, l ≠ 44 :: t) (h18 : ∀ t, l ≠ 46 :: t) : lexOp (foldEol l) = none := by
+  cases l with
+  | nil => simp [lexOp]
+  | cons a t =>
+    have e := fun (k : Nat) (h : ∀ t', a :: t ≠ k :: t') => (fun (hk : a = k) => h t (by rw [hk]) : a ≠ k)
+    by_cases ha : a = 13
+    · subst ha
+      obtain ⟨r', hr⟩ := foldEol_break_head (d := 13) (by decide) t
+      rw [hr, lexOp_10]
+    · rw [foldEol_cons_ne ha]
+      refine lexOp_none a _ (e _ h1) (e _ h2) (e _ h3) (e _ h4) (e _ h5) (e _ h6) (e _ h7) (e _ h8) (e _ h9)
+        (e _ h10) (e _ h12) (e _ h13) (e _ h14) (e _ h15) (e _ h16) (e _ h17) (e _ h18) ?_
+      intro x hx
+      simp only [List.cons.injEq] at hx
+      obtain ⟨rfl, hx⟩ := hx
+      rw [foldEol_eq_cons (by decide) (by decide)] at hx
+      obtain ⟨y, rfl, _⟩ := hx
+      exact h11 y rfl
+
+
+set_option maxHeartbeats 2000000 in
+/-- operators do not look at which line break follows -/
+theorem lexOp_fold (l : List Nat) : lexOp (foldEol l) = lexOp l := by
+  fun_cases lexOp l
+  case case41 tail hx =>
+    exact (lexOp_fold_dot tail (fun t h => hx t h)).trans (lexOp_dot tail (fun t h => hx t h))
+  case case42 =>
+    rename_i a40 a39 a38 a37 a36 a35 a34 a33 a32 a31 a30 a29 a28 a27 a26 a25 a24 a23 a22 a21 a20 a19 a18 a17 a16 a15 a14 a13 a12 a11 a10 a9 a8 a7 a6 a5 a4 a3 a2 a1 a0
+    exact lexOp_fold_none l (fun t h => a39 t h) (fun t h => a37 t h) (fun t h => a33 t h) (fun t h => a29 t h)
+      (fun t h => a27 t h) (fun t h => a25 t h) (fun t h => a23 t h) (fun t h => a21 t h) (fun t h => a18 t h)
+      (fun t h => a16 t h) (fun t h => a15 t h) (fun t h => a14 t h) (fun t h => a12 t h) (fun t h => a11 t h)
+      (fun t h => a7 t h) (fun t h => a3 t h) (fun t h => a2 t h) (fun t h => a0 t h)
+  all_goals simp_all [foldEol_cons_ne, lexOp, foldEol_eq_cons]
+
+
+set_option maxHeartbeats 1000000 in
+/-- an operator token contains no line break -/
+theorem lexOp_noBreak {l : List Nat} {o : Op} {n : Nat} (h : lexOp l = some (o, n)) : NoBreak (l.take n) := by
+  revert h
+  fun_cases lexOp l <;> intro h <;> simp at h
+  all_goals (obtain ⟨_, rfl⟩ := h; intro c hc; simp at hc; (try rcases hc with rfl | rfl | rfl) <;> (try rcases hc with rfl | rfl) <;> (try subst hc) <;> decide)
+
+/-! ### names -/
+
+theorem scanFold_fold {p : Nat → Bool} (h10 : p 10 = false) (h13 : p 13 = false) (l : List Nat) :
+    scanFold p (foldEol l) = scanFold p l ∧ NoBreak (l.take (scanFold p l).2) := by
+  induction l with
+  | nil => simp [scanFold, NoBreak]
+  | cons c cs ih =>
+    by_cases hc : c = 13
+    · subst hc
+      obtain ⟨r', hr⟩ := foldEol_break_head (d := 13) (by decide) cs
+      rw [hr]
+      have : scanFold p (13 :: cs) = ([], 0) := by
+        rw [scanFold.eq_def]; split <;> simp_all
+      rw [this]
+      simp [scanFold, h10, NoBreak]
+    · rw [foldEol_cons_ne hc]
+      have e1 : ∀ t, scanFold p (c :: t) = if p c then (((if c = 13 then 10 else c) :: (scanFold p t).1), (scanFold p t).2 + 1) else ([], 0) := by
+        intro t; rw [scanFold.eq_def]; split <;> simp_all
+      rw [e1, e1, ih.1]
+      refine ⟨rfl, ?_⟩
+      by_cases hp : p c = true
+      · simp only [hp, ↓reduceIte, List.take_succ_cons]
+        intro d hd
+        rcases List.mem_cons.1 hd with rfl | hd
+        · by_cases h : isLineBreak d = true
+          · rcases isLineBreak_cases h with rfl | rfl <;> simp_all
+          · simpa using h
+        · exact ih.2 d hd
+      · simp [hp, NoBreak]
+
+
+/-! ### strings -/
+
+theorem aligned_shift {l r : List Nat} {k k' : Nat} (h1 : l.drop k = r) (h2 : (foldEol l).drop k' = foldEol r)
+    {n n' : Nat} (h : Aligned r n n') : Aligned l (n + k) (n' + k') := by
+  unfold Aligned at *
+  rw [Nat.add_comm n k, ← List.drop_drop, h1, Nat.add_comm n' k', ← List.drop_drop, h2, h]
+
+def StrSim (l : List Nat) :
+    Except (ErrKind × Nat) (List Nat × Nat) → Except (ErrKind × Nat) (List Nat × Nat) → Prop
+  | .ok (v, n), .ok (v', n') => v = v' ∧ Aligned l n n'
+  | .error (k, _), .error (k', _) => k = k'
+  | _, _ => False
+
+theorem StrSim.bump {l r : List Nat} {k k' : Nat} (h1 : l.drop k = r) (h2 : (foldEol l).drop k' = foldEol r)
+    (pre : List Nat) {a b} (h : StrSim r a b) : StrSim l (bump k pre a) (bump k' pre b) := by
+  cases a with
+  | error ea => cases b with
+    | error eb => obtain ⟨k1, o1⟩ := ea; obtain ⟨k2, o2⟩ := eb; simpa [StrSim, PV.Lexer.bump] using h
+    | ok pb => obtain ⟨k1, o1⟩ := ea; obtain ⟨v2, n2⟩ := pb; simp [StrSim] at h
+  | ok pa => cases b with
+    | error eb => obtain ⟨v1, n1⟩ := pa; obtain ⟨k2, o2⟩ := eb; simp [StrSim] at h
+    | ok pb =>
+      obtain ⟨v1, n1⟩ := pa; obtain ⟨v2, n2⟩ := pb
+      simp only [StrSim, PV.Lexer.bump] at h ⊢
+      exact ⟨by rw [h.1], aligned_shift h1 h2 h.2⟩
+
+theorem strLoop_bs {q : Nat} {tr : Bool} {c : Nat} (hc : c ≠ 13) (r : List Nat) :
+    strLoop q tr (92 :: c :: r) = bump 2 [92, c] (strLoop q tr r) := by
+  simp [strLoop, hc]
+
+theorem strLoop_lf (q : Nat) (tr : Bool) (r : List Nat) :
+    strLoop q tr (10 :: r) = if tr then bump 1 [10] (strLoop q tr r) else .error (.otherEol, 1) := by
+  simp [strLoop]
+
+theorem strLoop_plain {q : Nat} {tr : Bool} {c : Nat} (h92 : c ≠ 92) (h13 : c ≠ 13) (h10 : c ≠ 10) (hq : c ≠ q)
+    (r : List Nat) : strLoop q tr (c :: r) = bump 1 [c] (strLoop q tr r) := by
+  rw [strLoop.eq_def]
+  split <;> simp_all
+
+theorem strLoop_close1 {q : Nat} (h92 : q ≠ 92) (h13 : q ≠ 13) (h10 : q ≠ 10) (r : List Nat) :
+    strLoop q false (q :: r) = .ok ([], 1) := by
+  rw [strLoop.eq_def]
+  split <;> simp_all
+
+theorem strLoop_close3 {q : Nat} (h92 : q ≠ 92) (h13 : q ≠ 13) (h10 : q ≠ 10) (t : List Nat) :
+    strLoop q true (q :: q :: q :: t) = .ok ([], 3) := by
+  rw [strLoop.eq_def]
+  split <;> simp_all
+  obtain ⟨rfl, rfl⟩ := ‹_ ∧ _›
+  simp
+
+theorem strLoop_quote {q : Nat} (h92 : q ≠ 92) (h13 : q ≠ 13) (h10 : q ≠ 10) (r : List Nat)
+    (hr : ∀ t, r ≠ q :: q :: t) : strLoop q true (q :: r) = bump 1 [q] (strLoop q true r) := by
+  rcases r with _ | ⟨a, _ | ⟨b, t⟩⟩
+  · simp [strLoop, h92, h13, h10]
+  · simp [strLoop, h92, h13, h10]
+  · have h : ¬ (a = q ∧ b = q) := by
+      rintro ⟨rfl, rfl⟩; exact hr t rfl
+    rw [strLoop.eq_def]
+    simp [h92, h13, h10, h]
+
+theorem isQuote_ne {q : Nat} (hq : isQuote q = true) : q ≠ 92 ∧ q ≠ 13 ∧ q ≠ 10 := by
+  have : q = 34 ∨ q = 39 := by simpa [isQuote] using hq
+  rcases this with rfl | rfl <;> decide
+
+theorem quote_noBreak {q : Nat} (hq : isQuote q = true) : isLineBreak q = false := by
+  have : q = 34 ∨ q = 39 := by simpa [isQuote] using hq
+  rcases this with rfl | rfl <;> decide
+
+/-- the string body loop: CR and CRLF are captured as LF; same value, same error kind -/
+theorem strLoop_fold (q : Nat) (tr : Bool) (hq : isQuote q = true) (l : List Nat) :
+    StrSim l (strLoop q tr l) (strLoop q tr (foldEol l)) := by
+  obtain ⟨hq92, hq13, hq10⟩ := isQuote_ne hq
+  fun_induction strLoop q tr l
+  case case1 => simp [strLoop, StrSim]
+  case case2 => simp [foldEol_cons_ne, strLoop, StrSim]
+  case case3 r ih =>
+    rw [foldEol_cons_ne (by decide), foldEol_crlf, strLoop_bs (by decide)]
+    exact StrSim.bump rfl (by rw [foldEol_cons_ne (by decide), foldEol_crlf]; rfl) _ ih
+  case case4 r hx ih =>
+    have hr : r.head? ≠ some 10 := by
+      intro h; cases r with
+      | nil => simp at h
+      | cons d t => simp at h; exact hx t (by rw [h])
+    rw [foldEol_cons_ne (by decide), foldEol_cr hr, strLoop_bs (by decide)]
+    exact StrSim.bump rfl (by rw [foldEol_cons_ne (by decide), foldEol_cr hr]; rfl) _ ih
+  case case5 c r _ hc ih =>
+    have hc' : c ≠ 13 := fun h => hc h
+    rw [foldEol_cons_ne (by decide), foldEol_cons_ne hc', strLoop_bs hc']
+    exact StrSim.bump rfl (by rw [foldEol_cons_ne (by decide), foldEol_cons_ne hc']; rfl) _ ih
+  case case6 r htr ih =>
+    subst htr
+    rw [foldEol_crlf, strLoop_lf]; simp only [↓reduceIte]
+    exact StrSim.bump rfl (by rw [foldEol_crlf]; rfl) _ ih
+  case case7 r htr =>
+    rw [foldEol_crlf, strLoop_lf]; simp [htr, StrSim]
+  case case8 r hx htr ih =>
+    have hr : r.head? ≠ some 10 := by
+      intro h; cases r with
+      | nil => simp at h
+      | cons d t => simp at h; exact hx t (by rw [h])
+    subst htr
+    rw [foldEol_cr hr, strLoop_lf]; simp only [↓reduceIte]
+    exact StrSim.bump rfl (by rw [foldEol_cr hr]; rfl) _ ih
+  case case9 r hx htr =>
+    have hr : r.head? ≠ some 10 := by
+      intro h; cases r with
+      | nil => simp at h
+      | cons d t => simp at h; exact hx t (by rw [h])
+    rw [foldEol_cr hr, strLoop_lf]; simp [htr, StrSim]
+  case case10 r htr ih =>
+    subst htr
+    rw [foldEol_lf, strLoop_lf]; simp only [↓reduceIte]
+    exact StrSim.bump rfl (by rw [foldEol_lf]; rfl) _ ih
+  case case11 r htr =>
+    rw [foldEol_lf, strLoop_lf]; simp [htr, StrSim]
+  case case12 htr a b tail hab _ _ _ _ _ _ _ =>
+    subst htr
+    have ha : a = q := by simp at hab; exact hab.1
+    have hb : b = q := by simp at hab; exact hab.2
+    rw [ha, hb]
+    rw [foldEol_cons_ne hq13, foldEol_cons_ne hq13, foldEol_cons_ne hq13, strLoop_close3 hq92 hq13 hq10]
+    refine ⟨rfl, aligned_of_noBreak ?_⟩
+    intro c hc
+    have hcq : c = q := by simpa using hc
+    rw [hcq]; exact quote_noBreak hq
+  case case13 htr a b tail hab _ _ _ _ _ _ _ ih =>
+    subst htr
+    have hne : ∀ t, foldEol (a :: b :: tail) ≠ q :: q :: t := by
+      intro t h
+      rw [foldEol_eq_cons hq10 hq13] at h
+      obtain ⟨y, hy, h2⟩ := h
+      have h2' := h2.symm
+      rw [foldEol_eq_cons hq10 hq13] at h2'
+      obtain ⟨z, hz, _⟩ := h2'
+      simp at hy
+      obtain ⟨rfl, rfl⟩ := hy
+      simp at hz
+      obtain ⟨rfl, _⟩ := hz
+      simp at hab
+    rw [foldEol_cons_ne hq13, strLoop_quote hq92 hq13 hq10 _ hne]
+    exact StrSim.bump rfl (by rw [foldEol_cons_ne hq13]; rfl) _ ih
+  case case14 r htr hshort _ _ _ _ _ _ _ ih =>
+    subst htr
+    have hne : ∀ t, foldEol r ≠ q :: q :: t := by
+      intro t h
+      rw [foldEol_eq_cons hq10 hq13] at h
+      obtain ⟨y, rfl, h2⟩ := h
+      have h2' := h2.symm
+      rw [foldEol_eq_cons hq10 hq13] at h2'
+      obtain ⟨z, rfl, _⟩ := h2'
+      exact hshort _ _ _ rfl
+    rw [foldEol_cons_ne hq13, strLoop_quote hq92 hq13 hq10 _ hne]
+    exact StrSim.bump rfl (by rw [foldEol_cons_ne hq13]; rfl) _ ih
+  case case15 r htr _ _ _ _ _ _ _ =>
+    have : tr = false := by simpa using htr
+    subst this
+    rw [foldEol_cons_ne hq13, strLoop_close1 hq92 hq13 hq10]
+    refine ⟨rfl, aligned_of_noBreak ?_⟩
+    intro c hc
+    have hcq : c = q := by simpa using hc
+    rw [hcq]; exact quote_noBreak hq
+  case case16 c r h1 _ _ h4 _ h13 h10 hcq ih =>
+    have hc13 : c ≠ 13 := fun h => h13 h
+    have hc10 : c ≠ 10 := fun h => h10 h
+    have hc92 : c ≠ 92 := by
+      intro h
+      cases r with
+      | nil => exact h1 h rfl
+      | cons d t => exact h4 d t h rfl
+    rw [foldEol_cons_ne hc13, strLoop_plain hc92 hc13 hc10 hcq]
+    exact StrSim.bump rfl (by rw [foldEol_cons_ne hc13]; rfl) _ ih
+
+
+/-- a sub-lexer on the text and on the folded text: same token and aligned rests, or errors of the same kind -/
+def SubSim (inp : List Nat) : Sub → Sub → Prop
+  | .ok (t, n), .ok (t', n') => t = t' ∧ Aligned inp n n'
+  | .error e, .error e' => e.kind = e'.kind
+  | _, _ => False
+
+theorem isTripleOpen_fold {q : Nat} (hq : isQuote q = true) (r : List Nat) :
+    isTripleOpen q (foldEol r) = isTripleOpen q r := by
+  obtain ⟨_, hq13, hq10⟩ := isQuote_ne hq
+  by_cases h : ∃ t, r = q :: q :: t
+  · obtain ⟨t, rfl⟩ := h
+    simp [foldEol_cons_ne hq13, isTripleOpen]
+  · have h1 : isTripleOpen q r = false := by
+      rcases r with _ | ⟨a, _ | ⟨b, t⟩⟩ <;> simp [isTripleOpen]
+      intro ha hb; subst ha; subst hb; exact h ⟨t, rfl⟩
+    have h2 : isTripleOpen q (foldEol r) = false := by
+      cases hfr : foldEol r with
+      | nil => simp [isTripleOpen]
+      | cons a t =>
+        cases t with
+        | nil => simp [isTripleOpen]
+        | cons b t' =>
+          simp only [isTripleOpen, Bool.and_eq_false_iff, decide_eq_false_iff_not]
+          by_cases ha : a = q
+          · right
+            intro hb
+            subst ha; subst hb
+            rw [foldEol_eq_cons hq10 hq13] at hfr
+            obtain ⟨y, rfl, h2⟩ := hfr
+            have h2' := h2.symm
+            rw [foldEol_eq_cons hq10 hq13] at h2'
+            obtain ⟨z, rfl, _⟩ := h2'
+            exact h ⟨z, rfl⟩
+          · left; exact ha
+    rw [h1, h2]
+
+theorem lexString_fold (kind : StringKind) (inp : List Nat) (hp : NoBreak (inp.take kind.prefixLen))
+    (hq : ∀ q r, inp.drop kind.prefixLen = q :: r → isQuote q = true) :
+    SubSim inp (lexString kind inp) (lexString kind (foldEol inp)) := by
+  have hal := aligned_of_noBreak hp
+  unfold Aligned at hal
+  unfold lexString
+  rw [← hal]
+  cases hd : inp.drop kind.prefixLen with
+  | nil => simp [SubSim, panicErr]
+  | cons q r =>
+    have hqq := hq q r hd
+    obtain ⟨_, hq13, hq10⟩ := isQuote_ne hqq
+    rw [foldEol_cons_ne hq13]
+    simp only [isTripleOpen_fold hqq]
+    by_cases ht : isTripleOpen q r = true
+    · simp only [ht, ↓reduceIte]
+      obtain ⟨r2, rfl⟩ : ∃ r2, r = q :: q :: r2 := by
+        rcases r with _ | ⟨a, _ | ⟨b, t⟩⟩ <;> simp [isTripleOpen] at ht
+        obtain ⟨rfl, rfl⟩ := ht; exact ⟨t, rfl⟩
+      rw [foldEol_cons_ne hq13, foldEol_cons_ne hq13]
+      simp only [List.drop_succ_cons, List.drop_zero]
+      have hs := strLoop_fold q true hqq r2
+      have h1 : inp.drop (kind.prefixLen + 3) = r2 := by
+        rw [← List.drop_drop, hd]; rfl
+      have h2 : (foldEol inp).drop (kind.prefixLen + 3) = foldEol r2 := by
+        rw [← List.drop_drop, ← hal, hd, foldEol_cons_ne hq13, foldEol_cons_ne hq13, foldEol_cons_ne hq13]; rfl
+      cases ha : strLoop q true r2 with
+      | error ea =>
+        cases hb : strLoop q true (foldEol r2) with
+        | error eb => obtain ⟨k1, o1⟩ := ea; obtain ⟨k2, o2⟩ := eb; simpa [ha, hb, StrSim, SubSim] using hs
+        | ok pb => obtain ⟨k1, o1⟩ := ea; obtain ⟨v2, n2⟩ := pb; simp [ha, hb, StrSim] at hs
+      | ok pa =>
+        cases hb : strLoop q true (foldEol r2) with
+        | error eb => obtain ⟨v1, n1⟩ := pa; obtain ⟨k2, o2⟩ := eb; simp [ha, hb, StrSim] at hs
+        | ok pb =>
+          obtain ⟨v1, n1⟩ := pa; obtain ⟨v2, n2⟩ := pb
+          simp only [ha, hb, StrSim] at hs
+          simp only [SubSim]
+          refine ⟨by rw [hs.1], ?_⟩
+          have := aligned_shift h1 h2 hs.2
+          simpa [Nat.add_comm, Nat.add_left_comm, Nat.add_assoc] using this
+    · simp only [ht, Bool.false_eq_true, ↓reduceIte]
+      have hs := strLoop_fold q false hqq r
+      have h1 : inp.drop (kind.prefixLen + 1) = r := by
+        rw [← List.drop_drop, hd]; rfl
+      have h2 : (foldEol inp).drop (kind.prefixLen + 1) = foldEol r := by
+        rw [← List.drop_drop, ← hal, hd, foldEol_cons_ne hq13]; rfl
+      cases ha : strLoop q false r with
+      | error ea =>
+        cases hb : strLoop q false (foldEol r) with
+        | error eb => obtain ⟨k1, o1⟩ := ea; obtain ⟨k2, o2⟩ := eb; simpa [ha, hb, StrSim, SubSim] using hs
+        | ok pb => obtain ⟨k1, o1⟩ := ea; obtain ⟨v2, n2⟩ := pb; simp [ha, hb, StrSim] at hs
+      | ok pa =>
+        cases hb : strLoop q false (foldEol r) with
+        | error eb => obtain ⟨v1, n1⟩ := pa; obtain ⟨k2, o2⟩ := eb; simp [ha, hb, StrSim] at hs
+        | ok pb =>
+          obtain ⟨v1, n1⟩ := pa; obtain ⟨v2, n2⟩ := pb
+          simp only [ha, hb, StrSim] at hs
+          simp only [SubSim]
+          refine ⟨by rw [hs.1], ?_⟩
+          have := aligned_shift h1 h2 hs.2
+          simpa [Nat.add_comm, Nat.add_left_comm, Nat.add_assoc] using this
+
+
+theorem isIdCont_break {up : UParams} (hs : up.Sane) {d : Nat} (hd : isLineBreak d = true) : isIdCont up d = false := by
+  rcases isLineBreak_cases hd with rfl | rfl
+  · simp [isIdCont, isAsciiLetter, isDigit, hs.lf]
+  · simp [isIdCont, isAsciiLetter, isDigit, hs.cr]
+
+theorem lexName_snd (up : UParams) (inp : List Nat) : (lexName up inp).2 = (scanFold (isIdCont up) inp).2 := by
+  unfold lexName
+  simp only []
+  cases Kw.ofName (scanFold (isIdCont up) inp).1 <;> rfl
+
+theorem lexName_fold {up : UParams} (hs : up.Sane) (inp : List Nat) :
+    SubSim inp (.ok (lexName up inp)) (.ok (lexName up (foldEol inp))) := by
+  obtain ⟨h1, h2⟩ := scanFold_fold (p := isIdCont up) (isIdCont_break hs (by decide)) (isIdCont_break hs (by decide)) inp
+  have e : lexName up (foldEol inp) = lexName up inp := by unfold lexName; rw [h1]
+  rw [e]
+  have hn := lexName_snd up inp
+  cases hl : lexName up inp with
+  | mk tok n =>
+    rw [hl] at hn
+    simp only [SubSim, true_and]
+    simp only [] at hn
+    refine aligned_of_noBreak ?_
+    rw [hn]; exact h2
+
+theorem ofChar_noBreak {c : Nat} {k : StringKind} (h : StringKind.ofChar c = some k) : isLineBreak c = false := by
+  by_cases hc : isLineBreak c = true
+  · rcases isLineBreak_cases hc with rfl | rfl <;> simp [StringKind.ofChar] at h
+  · simpa using hc
+
+theorem ofChars_noBreak {c d : Nat} {k : StringKind} (h : StringKind.ofChars c d = some k) :
+    isLineBreak c = false ∧ isLineBreak d = false := by
+  constructor
+  · by_cases hc : isLineBreak c = true
+    · rcases isLineBreak_cases hc with rfl | rfl <;> simp [StringKind.ofChars] at h
+    · simpa using hc
+  · by_cases hc : isLineBreak d = true
+    · rcases isLineBreak_cases hc with rfl | rfl <;> simp [StringKind.ofChars] at h
+    · simpa using hc
+
+
+theorem SubSim.refl_noBreak {inp : List Nat} {t : Tok} {n : Nat} (h : NoBreak (inp.take n)) :
+    SubSim inp (.ok (t, n)) (.ok (t, n)) := ⟨rfl, aligned_of_noBreak h⟩
+
+theorem isQuote_break {d : Nat} (hd : isLineBreak d = true) : isQuote d = false := by
+  rcases isLineBreak_cases hd with rfl | rfl <;> decide
+
+theorem ofChars_break {c d : Nat} (hd : isLineBreak d = true) : StringKind.ofChars c d = none := by
+  rcases isLineBreak_cases hd with rfl | rfl <;> simp [StringKind.ofChars]
+
+/-- the head of the folded text is a quote iff the head of the text is -/
+theorem headQuote_fold (l : List Nat) :
+    (match foldEol l with | q :: _ => isQuote q | [] => false) = (match l with | q :: _ => isQuote q | [] => false) := by
+  cases l with
+  | nil => simp
+  | cons d t =>
+    by_cases hd : d = 13
+    · subst hd
+      obtain ⟨r', hr⟩ := foldEol_break_head (d := 13) (by decide) t
+      rw [hr]; simp [isQuote]
+    · rw [foldEol_cons_ne hd]
+
+theorem lexIdentifier_fold {up : UParams} (hs : up.Sane) (c : Nat) (cs : List Nat) (hc : isLineBreak c = false) :
+    SubSim (c :: cs) (lexIdentifier up (c :: cs)) (lexIdentifier up (foldEol (c :: cs))) := by
+  have hc13 : c ≠ 13 := by intro h; subst h; simp [isLineBreak] at hc
+  have hN := lexName_fold hs (c :: cs)
+  rw [foldEol_cons_ne hc13] at hN ⊢
+  cases cs with
+  | nil => simpa [lexIdentifier] using hN
+  | cons q rest =>
+    by_cases hq13 : q = 13
+    · -- the second character is a CR: no string prefix either way
+      subst hq13
+      obtain ⟨r', hr⟩ := foldEol_break_head (d := 13) (by decide) rest
+      rw [hr] at hN ⊢
+      have e1 : lexIdentifier up (c :: 13 :: rest) = .ok (lexName up (c :: 13 :: rest)) := by
+        unfold lexIdentifier
+        simp only [show isQuote 13 = false by decide, Bool.false_eq_true, ↓reduceIte]
+        cases rest with
+        | nil => rfl
+        | cons q2 t => simp only [ofChars_break (c := c) (d := 13) (by decide)]; split <;> rfl
+      have e2 : lexIdentifier up (c :: 10 :: r') = .ok (lexName up (c :: 10 :: r')) := by
+        unfold lexIdentifier
+        simp only [show isQuote 10 = false by decide, Bool.false_eq_true, ↓reduceIte]
+        cases r' with
+        | nil => rfl
+        | cons q2 t => simp only [ofChars_break (c := c) (d := 10) (by decide)]; split <;> rfl
+      rw [e1, e2]; exact hN
+    · rw [foldEol_cons_ne hq13] at hN ⊢
+      unfold lexIdentifier
+      by_cases hq : isQuote q = true
+      · simp only [hq, ↓reduceIte]
+        cases hk : StringKind.ofChar c with
+        | none => exact hN
+        | some kind =>
+          have hpl := ofChar_prefixLen hk
+          have := lexString_fold kind (c :: q :: rest)
+            (by rw [hpl]; intro d hd; simp at hd; subst hd; exact hc)
+            (by rw [hpl]; intro q' r' h; simp at h; rw [← h.1]; exact hq)
+          rw [foldEol_cons_ne hc13, foldEol_cons_ne hq13] at this
+          exact this
+      · simp only [hq, Bool.false_eq_true, ↓reduceIte]
+        have hh := headQuote_fold rest
+        cases rest with
+        | nil => simpa using hN
+        | cons q2 t =>
+          simp only [] at hh
+          by_cases hq2 : isQuote q2 = true
+          · have hq2' : q2 ≠ 13 := by intro h; subst h; simp [isQuote] at hq2
+            rw [foldEol_cons_ne hq2'] at hN ⊢
+            simp only [hq2, ↓reduceIte]
+            cases hk : StringKind.ofChars c q with
+            | none => exact hN
+            | some kind =>
+              have hpl := ofChars_prefixLen hk
+              obtain ⟨b1, b2⟩ := ofChars_noBreak hk
+              have := lexString_fold kind (c :: q :: q2 :: t)
+                (by rw [hpl]; intro d hd; simp at hd; rcases hd with rfl | rfl <;> assumption)
+                (by rw [hpl]; intro q' r' h; simp at h; rw [← h.1]; exact hq2)
+              rw [foldEol_cons_ne hc13, foldEol_cons_ne hq13, foldEol_cons_ne hq2'] at this
+              exact this
+          · -- the third character is no quote, folded or not
+            have hf : (match foldEol (q2 :: t) with | q :: _ => isQuote q | [] => false) = false := by
+              rw [hh]; simpa using hq2
+            cases hfr : foldEol (q2 :: t) with
+            | nil => rw [hfr] at hN; simp only [hq2]; exact hN
+            | cons q3 t3 =>
+              rw [hfr] at hN hf
+              simp only [] at hf
+              simp only [hq2, hf, Bool.false_eq_true, ↓reduceIte]
+              exact hN
+
 end PV.C08
